@@ -33,6 +33,13 @@ DET = {
  'C13-float-memcmp': ('C13', ['C13 quick: cmp/FL1|FL2/part1|part2 assert 110/210 (+0.0 vs -0.0); floating-point lists were added to the pool after this change showed that none was covered']),
  'C16-swap-keeps-fixed-sizes': ('C16', ['C16 quick: copy/F1/*/swap assert x04 (get_fixed_size after swap of vectors with different fixed sizes) - counted for C16 ("exchange ownership") as well as C09']),
  'C17-copy-assign-destruct-not-clear': ('C17', ['C17 quick: exc/N1/*/copy_assign assert 9210 (size() vs live objects after the allocation failed) - reverts fix 7cfdfbf']),
+ 'C04-swap-keeps-fixed-sizes': ('C04', ['C04 quick: copy/F1|F2|M1/*/swap inv asserts (get_fixed_size x04, span counts, containment x98) - copy/swap obligations were added to the C04 pool for the "count given at construction" clause']),
+ 'C05-plain-aligned-residue0-budget': ('C05', ['C05 quick: layout shapes with a FixedSize span followed by an aligned plain field: assert 12 (exact memory_consumption of a full vector without VaryingSize) and 11/13 (element start is the lowest aligned address)']),
+ 'C10-reserve-equal-capacity-regrows': ('C10', ['C10 quick: seq/*/reserve... assert x90-x92 (reserve(n == capacity()) must do nothing at all: allocation count and addresses)']),
+ 'C14-lex-run-end-first-field': ('C14', ['C14 quick: cmp/E1/part4 asserts 420/421 (vector < vs lexicographical_compare under the element-level <). MISSED by the first version: the KF-lt-partial exclusion swallowed it (DESIGN 10)']),
+ 'C15-rvalue-range-move-if-noexcept': ('C15', ['C15 quick: emplace/p13/f3|f7 asserts 121/122 (rvalue range of a type whose converting move constructor is not noexcept must still be moved from once per item); pair 13 was added for this']),
+ 'C18-swap-keeps-fixed-sizes': ('C18', ['C18 quick: empty/F1|F2|M1|N1|N3 case "swap with a non-empty vector" with independent fixed sizes (the partner used to get the same fixed sizes as the empty vector)']),
+ 'C19-copy-ctor-skips-soccc': ('C19', ['C19 quick: const/*/vec-soccc RACE-WRITE "allocation through allocator instance 1 of a shared container during a const operation"; also C08 quick assert 801. The allocator-instance freeze was added for this']),
  'C19-elem-copy-assign-moves': ('C19', ['C19 quick: const/N2/elem RACE-WRITE store into the frozen shared element during copy assignment from it - the shared-const-element part of the harness was added for this']),
 }
 for d, (prop, det) in DET.items():
